@@ -11,6 +11,9 @@ if ! git diff --quiet; then echo "/repo has local changes, refusing"; exit 2; fi
 git apply "$PATCH" || { echo "patch does not apply"; exit 2; }
 trap 'git -C /repo checkout -- . ' EXIT
 cd /verif
+# evidence of runs on a modified tree must not overwrite the evidence of the real tree
+export VERIF_EVIDENCE_DIR=/tmp/seed_evidence
+mkdir -p $VERIF_EVIDENCE_DIR
 for P in "$@"; do
   LOG=/tmp/seed_${SEED}_${P}.log
   if [ -n "${ONLY:-}" ]; then
